@@ -17,6 +17,36 @@ def is_call(t: Any, name: str) -> bool:
     return isinstance(t, tuple) and t and t[0] == "pure" and t[1] == name
 
 
+def lower_bounds(t: Any, order: Iterable[tuple] = ()) -> set:
+    """terms l with l <= t; `order` lists known facts (a, b) meaning a <= b"""
+    out = {t}
+    for a, b in order:
+        if b == t:
+            out |= lower_bounds(a, [o for o in order if o != (a, b)])
+    if is_call(t, "max"):
+        for a in t[2]:
+            out |= lower_bounds(a, order)
+    elif is_call(t, "min"):
+        common = None
+        for a in t[2]:
+            lb = lower_bounds(a, order)
+            common = lb if common is None else (common & lb)
+        out |= common or set()
+    elif isinstance(t, tuple) and t and t[0] == "ite":
+        out |= lower_bounds(t[2], order) & lower_bounds(t[3], order)
+    return out
+
+
+def upper_bounds_o(t: Any, order: Iterable[tuple] = ()) -> set:
+    out = upper_bounds(t)
+    more = set()
+    for u in out:
+        for a, b in order:
+            if a == u:
+                more.add(b)
+    return out | more
+
+
 def upper_bounds(t: Any) -> set:
     """terms u with t <= u (over the reals)"""
     out = {t}
@@ -34,8 +64,9 @@ def upper_bounds(t: Any) -> set:
     return out
 
 
-def lower_const(t: Any, nonneg: Iterable[Any] = ()) -> Fraction | None:
-    """greatest constant c known with c <= t; `nonneg` are terms known to be >= 0"""
+def lower_const(t: Any, nonneg: Iterable[Any] = (), call_args=None) -> Fraction | None:
+    """greatest constant c known with c <= t; `nonneg` are terms known to be >= 0;
+    `call_args(term)` gives the arguments of a random.uniform call term"""
     nn = set(nonneg)
     if t in nn:
         return Fraction(0)
@@ -46,27 +77,34 @@ def lower_const(t: Any, nonneg: Iterable[Any] = ()) -> Fraction | None:
             return None
         return Fraction(t[1])
     if is_call(t, "max"):
-        vals = [lower_const(a, nn) for a in t[2]]
+        vals = [lower_const(a, nn, call_args) for a in t[2]]
         vals = [v for v in vals if v is not None]
         return max(vals) if vals else None
     if is_call(t, "min"):
-        vals = [lower_const(a, nn) for a in t[2]]
+        vals = [lower_const(a, nn, call_args) for a in t[2]]
         return None if any(v is None for v in vals) or not vals else min(vals)
     if is_call(t, "float") or is_call(t, "abs"):
         if is_call(t, "abs"):
             return Fraction(0)
-        return lower_const(t[2][0], nn) if t[2] else None
+        return lower_const(t[2][0], nn, call_args) if t[2] else None
     if t[0] == "ite":
-        a, b = lower_const(t[2], nn), lower_const(t[3], nn)
+        a, b = lower_const(t[2], nn, call_args), lower_const(t[3], nn, call_args)
         return None if a is None or b is None else min(a, b)
     if t[0] == "op" and t[1] == "+":
-        a, b = lower_const(t[2], nn), lower_const(t[3], nn)
+        a, b = lower_const(t[2], nn, call_args), lower_const(t[3], nn, call_args)
         return None if a is None or b is None else a + b
     if t[0] == "op" and t[1] in ("*", "/"):
-        a, b = lower_const(t[2], nn), lower_const(t[3], nn)
+        a, b = lower_const(t[2], nn, call_args), lower_const(t[3], nn, call_args)
         if a is not None and b is not None and a >= 0 and b >= 0:
             return Fraction(0)
         return None
-    if t[0] == "call" and str(t[2]) == "lib:random.uniform":
-        return None  # needs the arguments: handled by callers through events
+    if t[0] == "call" and str(t[2]) == "lib:random.uniform" and call_args is not None:
+        args = call_args(t)
+        if args and len(args) == 2:
+            a, b = lower_const(args[0], nn, call_args), lower_const(args[1], nn, call_args)
+            return None if a is None or b is None else min(a, b)
+        return None
+    if t[0] == "bool" and t[1] == "or":
+        vals = [lower_const(a, nn, call_args) for a in t[2]]
+        return None if any(v is None for v in vals) else min(vals)
     return None
